@@ -425,6 +425,14 @@ class FuncTypes:
                 return self.table.return_type(r.functions[n], depth)
             return None
         if isinstance(f, ast.Attribute):
+            if f.attr == "chain" and e.args and ast.unparse(f.value) == "itertools":
+                ets = [elem(self.type_of(a, depth)) for a in e.args]
+                if all(t is not None for t in ets):
+                    if all(t == ets[0] for t in ets):
+                        return ("list", ets[0])
+                    if all(t[0] == "obj" for t in ets):
+                        return ("list", ("union",) + tuple(dict.fromkeys(ets)))
+                return None
             # itertools.chain.from_iterable(X)
             if f.attr == "from_iterable" and e.args:
                 t = self.type_of(e.args[0], depth)
